@@ -938,6 +938,9 @@ class Flattener(object):
                        for n in ast.walk(st))
             if not used and any(k.endswith('.<locals>.' + name) for k in self.inlined):
                 node.body = [st for st in node.body if not (isinstance(st, ast.FunctionDef) and st.name == name)] or [ast.Pass()]
+        # a flag parameter bound to a literal leaves `if not False:` behind: keep the branch taken
+        if self.inlined:
+            node.body = _fold_constant_tests(node.body) or [ast.Pass()]
         # inlining exposes new sugar (a helper that was `return any(...)`): one more desugaring round
         before = self.desugared
         node.body = self.desugar(node.body)
@@ -949,6 +952,35 @@ class Flattener(object):
                 child._parent = n
         node._parent = getattr(self.fi.node, '_parent', None)
         return node
+
+
+def _const_truth(t):
+    if isinstance(t, ast.Constant) and (isinstance(t.value, bool) or t.value is None):
+        return bool(t.value)
+    if isinstance(t, ast.UnaryOp) and isinstance(t.op, ast.Not):
+        r = _const_truth(t.operand)
+        return None if r is None else (not r)
+    return None
+
+
+def _fold_constant_tests(stmts):
+    out = []
+    for s in stmts:
+        if isinstance(s, ast.If):
+            r = _const_truth(s.test)
+            if r is not None:
+                out.extend(_fold_constant_tests(s.body if r else s.orelse))
+                continue
+        for field in ('body', 'orelse', 'finalbody'):
+            blk = getattr(s, field, None)
+            if isinstance(blk, list) and blk and isinstance(blk[0], ast.stmt) and not isinstance(s, (ast.FunctionDef, ast.ClassDef)):
+                new = _fold_constant_tests(blk)
+                setattr(s, field, new if (new or field != 'body') else [ast.Pass()])
+        if isinstance(s, ast.Try):
+            for h in s.handlers:
+                h.body = _fold_constant_tests(h.body) or [ast.Pass()]
+        out.append(s)
+    return out
 
 
 class _ReplaceNode(ast.NodeTransformer):
